@@ -237,6 +237,22 @@ def check_json_name(rep, prog, fm):
                     dirs.append(t)
             leaves(d)
             ok_dir = any(x == fm.arg("output_dir") for x in dirs)
+            if ok_dir:
+                # with -o given, nothing is ever written anywhere else (e.g. a silent fall-back to the PEL directory when the
+                # chosen directory does not exist)
+                A_ = fm.arg("output_dir")
+                alts_ = []
+
+                def lv_(t, cs):
+                    if isinstance(t, Ite):
+                        lv_(t.a, cs + [t.c]), lv_(t.b, cs + [not_(t.c)])
+                    else:
+                        alts_.append((t, and_(*cs)))
+                lv_(d, [])
+                g_open = fm.norm(e.guard)
+                for t_, c_ in alts_:
+                    if t_ != A_ and not pelx.unsat(and_(c_, A_, g_open))[0]:
+                        ok_dir = False
             parts = [x.args[0] if isinstance(x, Op) and x.op == "fv" and x.args[1] == Const("") and x.args[2] == Const("") else x
                      for x in pelx.flat_parts(name)]          # f'{s}' of a string is the string
             ok_name = len(parts) == 4 and isinstance(parts[0], Op) and parts[0].op == "call:os.path.basename" and \
